@@ -13,6 +13,7 @@ import (
 	"sync"
 	"time"
 
+	"os/exec"
 	"go/types"
 
 	"golang.org/x/tools/go/ssa"
@@ -135,6 +136,8 @@ func readKnownFindings(path string) ([]knownFinding, error) {
 }
 
 type funcOutcome struct {
+	boundedFirst string
+	boundedCases int
 	Key      string
 	VC       *VCResult
 	Res      map[int]OblResult
@@ -153,6 +156,8 @@ func runFunctions(w *World, specs *Specs, contracts map[string]*Contract, keys [
 		fn := w.Funcs[key]
 		if strings.HasPrefix(key, "grammar:") {
 			grammarOutcome(w, fo)
+		} else if strings.HasPrefix(key, "bounded:") {
+			boundedOutcome(w, fo)
 		} else if strings.HasPrefix(key, "maprange:") {
 			maprangeOutcome(w, fo)
 		} else if strings.HasPrefix(key, "globals:") {
@@ -386,6 +391,7 @@ func cmdCheck(args []string) int {
 	timeout := 10000
 	if *tier == "thorough" {
 		timeout = 60000
+		crossCheck = true
 	}
 	lock, err := readLock(vd + "/obligations.lock")
 	if err != nil {
@@ -449,6 +455,7 @@ func cmdCheck(args []string) int {
 	var funcsUnder []string
 	var unclaimedArith []string
 	var vioLines []string
+	var boundedNotes []string
 	nReplays := 0
 	for _, key := range keys {
 		fo := outs[key]
@@ -494,9 +501,14 @@ func cmdCheck(args []string) int {
 				vioLines = append(vioLines, fmt.Sprintf("VIOLATION property=%s replay=%s obligation=%s/%s no-failing-input-found", *prop, path, key, n))
 				continue
 			}
-			nObl += a.Total
-			nDis += a.Discharged
-			byKind[kindOfAgg(n)] += a.Total
+			if strings.HasPrefix(key, "bounded:") {
+				// a bounded stand-in is reported separately and never counted as proved
+				boundedNotes = append(boundedNotes, fmt.Sprintf("%s: %s", key, fo.VC.Obls[0].Descr))
+			} else {
+				nObl += a.Total
+				nDis += a.Discharged
+				byKind[kindOfAgg(n)] += a.Total
+			}
 			for s, c := range a.Solver {
 				bySolver[s] += c
 			}
@@ -507,7 +519,10 @@ func cmdCheck(args []string) int {
 				violations++
 				path := writeReplay(w, fo, key, n, a, replayDir, timeout)
 				confirmed := false
-				if nReplays < 8 {
+				if strings.HasPrefix(key, "bounded:") {
+					// the harness ran the real function: its first failing input is the replayed input
+					confirmed = fo.boundedFirst != ""
+				} else if nReplays < 8 {
 					nReplays++
 					confirmed = tryReplay(w, fo, key, n, a, path)
 				} else if lf, err := os.OpenFile(path, os.O_APPEND|os.O_WRONLY, 0o644); err == nil {
@@ -564,8 +579,40 @@ func cmdCheck(args []string) int {
 			"known_findings_printed":      len(kfs),
 			"machine_arithmetic_assumed":  unclaimedArith,
 			"per_obligation_timeout_ms":   timeout,
+			"bounded_standins":            boundedNotes,
 			"explanation":                 "every claimed obligation (obligations.lock) is regenerated from /repo's working tree and must be answered unsat by a solver",
 		}}
+	if crossCheck {
+		agree, undecided := 0, 0
+		var disagreements []string
+		for key, fo := range outs {
+			for off, r := range fo.Res {
+				if r.Cross == "" {
+					continue
+				}
+				for _, c := range strings.Fields(r.Cross) {
+					switch {
+					case strings.HasSuffix(c, ":unsat"):
+						agree++
+					case strings.HasSuffix(c, ":sat"):
+						disagreements = append(disagreements, fmt.Sprintf("%s obligation #%d: %s says unsat, %s", key, off, r.Solver, c))
+					default:
+						undecided++
+					}
+				}
+			}
+		}
+		sort.Strings(disagreements)
+		ev.Coverage["cross_check"] = map[string]interface{}{
+			"what":          "every obligation discharged by one solver was also given to the other two (IEEE-precise script, same time-out)",
+			"second_opinions_agreeing":  agree,
+			"second_opinions_undecided": undecided,
+			"disagreements":             disagreements,
+		}
+		for _, d := range disagreements {
+			fmt.Println("SOLVER-DISAGREEMENT:", d)
+		}
+	}
 	os.MkdirAll(filepath.Join(vd, "evidence"), 0o755)
 	b, _ := json.MarshalIndent(ev, "", " ")
 	os.WriteFile(filepath.Join(vd, "evidence", *prop+".json"), b, 0o644)
@@ -700,7 +747,7 @@ func tableOutcome(w *World, fo *funcOutcome, kfs []knownFinding) {
 				}
 			}
 		}
-		fo.Res[i] = OblResult{st, "const-eval", 0}
+		fo.Res[i] = OblResult{Status: st, Solver: "const-eval"}
 	}
 	// the literal is what the program uses only if nothing writes the table (or one of its rows) after initialisation
 	{
@@ -716,7 +763,7 @@ func tableOutcome(w *World, fo *funcOutcome, kfs []knownFinding) {
 		}
 		fo.VC.Obls = append(fo.VC.Obls, &Obl{Name: "immutable", Kind: "table", Offset: i, Func: fo.Key,
 			Descr: "the table and its rows are only looked up, ranged over or measured after package initialisation (go/ssa scan, following rows returned to callers)"})
-		fo.Res[i] = OblResult{st, "ssa-scan", 0}
+		fo.Res[i] = OblResult{Status: st, Solver: "ssa-scan"}
 	}
 	fo.VC.Trusted = []string{"table " + ts.Table + ": go/types constant evaluation of the composite literal; expected content transcribed by hand from " + ts.Source}
 }
@@ -757,7 +804,7 @@ func footprintOutcome(w *World, fo *funcOutcome) {
 			// an empty scan result would make the obligation vacuous: the field must be found
 			st = "sat"
 		}
-		fo.Res[i] = OblResult{st, "ssa-scan", 0}
+		fo.Res[i] = OblResult{Status: st, Solver: "ssa-scan"}
 	}
 	add("written", writers, fs.Writers)
 	add("read", readers, fs.Readers)
@@ -872,7 +919,7 @@ func globalsOutcome(w *World, fo *funcOutcome) {
 		if !ok {
 			st = "sat"
 		}
-		fo.Res[i] = OblResult{st, "ssa-scan", 0}
+		fo.Res[i] = OblResult{Status: st, Solver: "ssa-scan"}
 	}
 	var offenders []string
 	for _, k := range keys {
@@ -971,7 +1018,7 @@ func maprangeOutcome(w *World, fo *funcOutcome) {
 		if !ok {
 			st = "sat"
 		}
-		fo.Res[i] = OblResult{st, "ssa-scan", 0}
+		fo.Res[i] = OblResult{Status: st, Solver: "ssa-scan"}
 	}
 	var unlisted, stale []string
 	for k, n := range found {
@@ -992,4 +1039,86 @@ func maprangeOutcome(w *World, fo *funcOutcome) {
 	addObl("list-current", fmt.Sprintf("every listed loop still exists: stale %v", stale), len(stale) == 0)
 	addObl("scan-not-empty", fmt.Sprintf("%d functions scanned", n), n > 0)
 	fo.VC.Trusted = []string{fmt.Sprintf("order-independence of the %d reviewed map iterations in %v is argued per loop in spec/footprints/maprange_%s.json, not proved", len(ms.Loops), ms.Packages, name)}
+}
+
+type boundedSpec struct {
+	Package  string `json:"package"`
+	Test     string `json:"test"`
+	Harness  string `json:"harness"`
+	MinCases int    `json:"min_cases"`
+	Function string `json:"function"`
+	Bound    string `json:"bound"`
+	Oracle   string `json:"oracle"`
+}
+
+// boundedOutcome runs a bounded stand-in: a harness (kept under /verif/spec/bounded) is injected into the package with
+// go test -overlay and exercises the REAL function on a stated, systematically enumerated set of inputs against an
+// exact oracle. It is labelled bounded everywhere and never counted as proved.
+func boundedOutcome(w *World, fo *funcOutcome) {
+	name := strings.TrimPrefix(fo.Key, "bounded:")
+	fo.VC = &VCResult{Key: fo.Key}
+	dirSpec := filepath.Join(verifDir(), "spec", "bounded")
+	b, err := os.ReadFile(filepath.Join(dirSpec, name+".json"))
+	if err != nil {
+		fo.VC.Err = err
+		return
+	}
+	var bs boundedSpec
+	if err := json.Unmarshal(b, &bs); err != nil {
+		fo.VC.Err = err
+		return
+	}
+	src, err := os.ReadFile(filepath.Join(dirSpec, bs.Harness))
+	if err != nil {
+		fo.VC.Err = err
+		return
+	}
+	dir, err := os.MkdirTemp(w.Scratch, "bounded")
+	if err != nil {
+		fo.VC.Err = err
+		return
+	}
+	testFile := filepath.Join(dir, "zz_gvc_bounded_test.go")
+	os.WriteFile(testFile, src, 0o644)
+	repl := map[string]string{filepath.Join(w.RepoDir, bs.Package, "zz_gvc_bounded_test.go"): testFile}
+	k := 0
+	for target, content := range w.Overlay {
+		k++
+		f := filepath.Join(dir, fmt.Sprintf("overlay%d.go", k))
+		os.WriteFile(f, content, 0o644)
+		repl[target] = f
+	}
+	ov, _ := json.Marshal(map[string]interface{}{"Replace": repl})
+	ovFile := filepath.Join(dir, "overlay.json")
+	os.WriteFile(ovFile, ov, 0o644)
+	cmd := exec.Command("go", "test", "-overlay", ovFile, "-vet=off", "-v", "-count=1", "-timeout", "300s", "-run", "^"+bs.Test+"$", "./"+bs.Package)
+	cmd.Dir = w.RepoDir
+	cmd.Env = goEnv()
+	t0 := time.Now()
+	out, _ := cmd.CombinedOutput()
+	secs := time.Since(t0).Seconds()
+	cases, failures, first := -1, -1, ""
+	for _, ln := range strings.Split(string(out), "\n") {
+		if strings.HasPrefix(ln, "GVCBOUNDED ") {
+			fmt.Sscanf(ln, "GVCBOUNDED cases=%d failures=%d", &cases, &failures)
+			if i := strings.Index(ln, "first="); i >= 0 {
+				first = ln[i+6:]
+			}
+		}
+	}
+	fo.Res = map[int]OblResult{}
+	st, descr := "unsat", fmt.Sprintf("BOUNDED (not a proof): %s agrees with the oracle on all %d enumerated inputs; bound: %s; oracle: %s", bs.Function, cases, bs.Bound, bs.Oracle)
+	switch {
+	case cases < 0:
+		st, descr = "error", "the bounded harness did not run to its end:\n"+tail(string(out), 1200)
+	case failures > 0:
+		st, descr = "sat", fmt.Sprintf("BOUNDED check: %d of %d enumerated inputs disagree with the oracle; first failing input: %s", failures, cases, first)
+	case cases < bs.MinCases:
+		st, descr = "sat", fmt.Sprintf("BOUNDED check ran only %d cases, the stated bound needs at least %d", cases, bs.MinCases)
+	}
+	fo.VC.Obls = append(fo.VC.Obls, &Obl{Name: "bounded-agreement", Kind: "bounded", Offset: 0, Func: fo.Key, Descr: descr})
+	fo.Res[0] = OblResult{Status: st, Solver: "go test (bounded enumeration)", TimeS: secs}
+	fo.VC.Trusted = []string{"bounded stand-in for " + bs.Function + ": " + bs.Bound + " - inputs outside this enumeration are NOT covered; the oracle (" + bs.Oracle + ") is hand-written"}
+	fo.boundedFirst = first
+	fo.boundedCases = cases
 }
